@@ -2,14 +2,16 @@
 
     Statements only; proofs are in [theories/CliProofs.v].  What is a theorem here is the
     clip decision and the validity of what is printed, for every threshold (finite, and —
-    through arbitrary predicates — NaN and the infinities).  That the method, preset,
-    budget, threshold and parallelism options select the corresponding library behaviour,
-    route independence, and the agreement of the JSON and Gambit encodings are constants
-    and plumbing of [main.rs]/[clap]: they are decided by the end-to-end correspondence of
-    the check (binary vs library vs this model), not by a theorem; thread-count
+    through arbitrary predicates — NaN and the infinities), the option table and the
+    composition reader -> solve -> clip -> output ([CliRun]), and route independence: the
+    format flag, the file extension and content detection select a reader as documented and
+    every documented route reads the same game ([CliRoute]; the two text parsers are
+    dependencies and are universally quantified).  [clap]'s own parsing is tied only by the
+    end-to-end correspondence of the check (binary vs library vs this model); thread-count
     independence of the deterministic method is C06. *)
 From Coq Require Import Reals List Bool NArith.
-From Cfr.theories Require Import Num RInst Tree GameWF Valid Strat Eval Solve SolveValidProofs Cli CliProofs PresentationProofs CliMoreProofs SolveApi CliRun.
+From Cfr.theories Require Import Num RInst Tree GameWF Valid Strat Eval Solve SolveValidProofs Cli CliProofs PresentationProofs CliMoreProofs SolveApi CliRun CliRoute.
+From Coq Require Import String.
 Import ListNotations.
 Open Scope R_scope.
 
@@ -126,6 +128,46 @@ Theorem C16_rejected_prints_nothing :
   forall (a : args) r draw par s, cli_run a (Rejected r) draw par s = None.
 Proof. exact cli_run_rejected. Qed.
 
+(** 7. format selection: flag, then extension, then content (JSON first); every documented
+    route of a game file prints the same result; the parsers are arbitrary functions *)
+Theorem C16_flag_then_extension_then_content :
+  forall (Text JFile GFile Result : Type) (pj : Text -> option JFile) (pg : Text -> option GFile)
+         (lj : JFile -> loaded Result) (lg : GFile -> loaded Result) (path : string) (t : Text),
+    (forall input, cli_load pj pg lj lg input FJson t = read_json pj lj t /\
+                   cli_load pj pg lj lg input FGambit t = read_gambit pg lg t) /\
+    (ends_with ".json" path = true -> cli_load pj pg lj lg (Some path) FAuto t = read_json pj lj t) /\
+    (ends_with ".json" path = false -> ends_with ".efg" path = true ->
+     cli_load pj pg lj lg (Some path) FAuto t = read_gambit pg lg t) /\
+    (ends_with ".json" path = false -> ends_with ".efg" path = false ->
+     cli_load pj pg lj lg (Some path) FAuto t = read_auto pj pg lj lg t) /\
+    cli_load pj pg lj lg None FAuto t = read_auto pj pg lj lg t /\
+    (forall j, pj t = Some j -> read_auto pj pg lj lg t = read_json pj lj t) /\
+    (pj t = None -> read_auto pj pg lj lg t = read_gambit pg lg t).
+Proof. intros. apply format_selection_spec. Qed.
+
+Theorem C16_json_file_route_irrelevant :
+  forall (Text JFile GFile : Type) (pj : Text -> option JFile) (pg : Text -> option GFile)
+         (lj : JFile -> loaded (@game RNum * R)) (lg : GFile -> loaded (@game RNum * R))
+         (a : args) (t : Text) (j : JFile) (input input' : option string) draw par s,
+    pj t = Some j ->
+    (match input with Some path => ends_with ".json" path = true \/ ends_with ".efg" path = false | None => True end) ->
+    cli_main pj pg lj lg a input FAuto t draw par s = cli_main pj pg lj lg a input' FJson t draw par s /\
+    cli_main pj pg lj lg a input' FJson t draw par s = cli_run a (lj j) draw par s.
+Proof. intros. now apply main_json_route_irrelevant. Qed.
+
+Theorem C16_gambit_file_route_irrelevant :
+  forall (Text JFile GFile : Type) (pj : Text -> option JFile) (pg : Text -> option GFile)
+         (lj : JFile -> loaded (@game RNum * R)) (lg : GFile -> loaded (@game RNum * R))
+         (a : args) (t : Text) (e : GFile) (input input' : option string) draw par s,
+    pj t = None -> pg t = Some e ->
+    (match input with Some path => ends_with ".json" path = false | None => True end) ->
+    cli_main pj pg lj lg a input FAuto t draw par s = cli_main pj pg lj lg a input' FGambit t draw par s /\
+    cli_main pj pg lj lg a input' FGambit t draw par s = cli_run a (lg e) draw par s.
+Proof. intros. now apply main_gambit_route_irrelevant. Qed.
+
+Print Assumptions C16_flag_then_extension_then_content.
+Print Assumptions C16_json_file_route_irrelevant.
+Print Assumptions C16_gambit_file_route_irrelevant.
 Print Assumptions C16_option_table.
 Print Assumptions C16_printed_is_library_result.
 Print Assumptions C16_parallelism_irrelevant.
